@@ -601,3 +601,37 @@ func (i *interpreter) jsonFromGeneric(dt types.Type, dst *value, g interface{}) 
 	}
 	panic(abortPath{"json: decoding concrete bytes into " + dt.String()})
 }
+
+// ---- rlp.EncodeToBytes / DecodeBytes (blob model, same-type round trips only) ----
+
+const rlpEnc = 1000 // blob.enc tag of RLP blobs
+
+func init() {
+	const rlp = "github.com/ethereum/go-ethereum/rlp"
+	externals[rlp+".EncodeToBytes"] = func(fr *frame, args []value) value {
+		fr.i.x.stub("rlp.EncodeToBytes / DecodeBytes (blob model; decoded only into the type that was encoded)")
+		itf := args[0].(iface)
+		if itf.t == nil {
+			panic(abortPath{"rlp.EncodeToBytes(nil)"})
+		}
+		cp := fr.i.jsonCopy(itf.t, itf.v)
+		b := fr.i.newBlob(itf.t, cp)
+		b[0].(*blob).enc = rlpEnc
+		return tuple{b, iface{}}
+	}
+	externals[rlp+".DecodeBytes"] = func(fr *frame, args []value) value {
+		data, _ := args[0].([]value)
+		dst := args[1].(iface)
+		b := blobOf(data)
+		if b == nil || b.enc != rlpEnc || dst.t == nil || !types.Identical(dst.t, b.t) {
+			panic(abortPath{"rlp.DecodeBytes of bytes not produced by rlp.EncodeToBytes of the same type"})
+		}
+		dp := dst.t.Underlying().(*types.Pointer)
+		p, _ := dst.v.(*value)
+		if p == nil {
+			panic(abortPath{"rlp.DecodeBytes into nil"})
+		}
+		fr.i.jsonAssign(dp.Elem(), p, b.t, b.v)
+		return iface{}
+	}
+}
